@@ -4,6 +4,7 @@ Everything here is harness code; the loader, initialisers, file readers and road
 """
 import csv
 import json
+import datetime as _dt
 import math
 import os
 import shutil
@@ -345,6 +346,7 @@ def gen_world(rng, profile=None):
         "prices": None,
         "rate": rng.choice([[2.2, 1.6, 5], [1, 0, 1], [0.5, 3.0, 0]]) if rng.random() < prof["p_rate"] else None,
         "nsteps": nsteps,
+        "time_format": rng.choice(prof.get("time_formats", ["epoch", "epoch", "epoch", "iso", "iso", "iso_utc"])),
         "extent_m": extent_m,
     }
     if network == "graph":
@@ -437,11 +439,20 @@ def materialise(spec, root=None):
       [[v["id"], *cell_latlon(v["cell"]), v["mech"], repr(v["soc"]), v.get("schedule") or "", v.get("home") or ""]
        for v in spec["vehicles"]])
     hdr = ["request_id", "o_lat", "o_lon", "d_lat", "d_lon", "departure_time", "passengers"]
+    tf = spec.get("time_format") or "epoch"
+
+    def ft(t):
+        """times in the input files: epoch seconds or ISO 8601 (HIVE reads both; an offset of +00:00 changes nothing)"""
+        if tf == "epoch":
+            return t
+        iso = _dt.datetime.utcfromtimestamp(int(t)).isoformat()
+        return iso + "+00:00" if tf == "iso_utc" else iso
+
     if spec.get("fleets"):
         hdr.append("fleet_id")
-        rows = [[r["id"], *cell_latlon(r["o"]), *cell_latlon(r["d"]), r["t"], r["pax"], r.get("fleet", "")] for r in spec["requests"]]
+        rows = [[r["id"], *cell_latlon(r["o"]), *cell_latlon(r["d"]), ft(r["t"]), r["pax"], r.get("fleet", "")] for r in spec["requests"]]
     else:
-        rows = [[r["id"], *cell_latlon(r["o"]), *cell_latlon(r["d"]), r["t"], r["pax"]] for r in spec["requests"]]
+        rows = [[r["id"], *cell_latlon(r["o"]), *cell_latlon(r["d"]), ft(r["t"]), r["pax"]] for r in spec["requests"]]
     w(d / "requests/r.csv", hdr, rows)
     w(d / "stations/s.csv", ["station_id", "lat", "lon", "charger_count", "charger_id", "on_shift_access"],
       [[s["id"], *cell_latlon(s["cell"]), p["count"], p["charger"], "true" if p["on_shift"] else "false"]
@@ -460,7 +471,7 @@ def materialise(spec, root=None):
         inp["rate_structure_file"] = "rate.csv"
     if spec.get("prices"):
         pr = spec["prices"]
-        w(d / "charging_prices/p.csv", ["time", pr["by"], "charger_id", "price_kwh"], pr["rows"])
+        w(d / "charging_prices/p.csv", ["time", pr["by"], "charger_id", "price_kwh"], [[ft(r[0]), *r[1:]] for r in pr["rows"]])
         inp["charging_price_file"] = "p.csv"
     if spec.get("schedules"):
         w(d / "schedules/sch.csv", ["schedule_id", "start_time", "end_time"], spec["schedules"])
@@ -481,7 +492,10 @@ def materialise(spec, root=None):
         with open(d / "road_network/g.json", "w") as f:
             json.dump(denver_graph(), f)
         inp["road_network_file"] = "g.json"
-    y = {"sim": spec["sim"], "network": net, "input": inp, "dispatcher": spec.get("dispatcher", {})}
+    sim_y = dict(spec["sim"])
+    if tf != "epoch":
+        sim_y["start_time"], sim_y["end_time"] = str(ft(sim_y["start_time"])), str(ft(sim_y["end_time"]))
+    y = {"sim": sim_y, "network": net, "input": inp, "dispatcher": spec.get("dispatcher", {})}
     with open(d / "scenario.yaml", "w") as f:
         yaml.safe_dump(y, f)
     return d
